@@ -176,6 +176,36 @@ func (sc *Scenario) Materialize(root string, resultDir string) ([]string, error)
 		}
 		args = append(args, "parameter="+pdir)
 	}
+	if len(sc.OwnNFunction) > 0 {
+		pdir := "parameter_" + p
+		if _, err := os.Lstat(filepath.Join(root, pdir)); err != nil {
+			if err := linkParamFolder(filepath.Join(root, pdir), nil); err != nil {
+				return nil, err
+			}
+		}
+		for file, nf := range sc.OwnNFunction {
+			b, err := os.ReadFile(filepath.Join(paramDir, file))
+			if err != nil {
+				return nil, err
+			}
+			lines := strings.Split(string(b), "\n")
+			done := false
+			for i, l := range lines {
+				if strings.HasPrefix(l, "NGEFKT:") {
+					lines[i] = fmt.Sprintf("NGEFKT: %d", nf)
+					done = true
+				}
+			}
+			if !done {
+				return nil, fmt.Errorf("no NGEFKT line in %s", file)
+			}
+			os.Remove(filepath.Join(root, pdir, file))
+			if err := os.WriteFile(filepath.Join(root, pdir, file), []byte(strings.Join(lines, "\n")), 0644); err != nil {
+				return nil, err
+			}
+		}
+		args = append(args, "parameter="+pdir)
+	}
 	if sc.FileExt != "" {
 		args = append(args, "fileExtension="+sc.FileExt)
 	}
@@ -785,7 +815,11 @@ func (sc *Scenario) weatherHeader(b *strings.Builder, names, units string) {
 	b.WriteString(names + "\n")
 	if w.NumHeader == 3 {
 		b.WriteString(units + "\n")
-		fmt.Fprintf(b, "%s;%s;-----\n", fmtG(w.Altitude), fmtG(w.WindHeight))
+		co2 := "-----"
+		if w.CO2InHeader > 0 {
+			co2 = fmtG(w.CO2InHeader)
+		}
+		fmt.Fprintf(b, "%s;%s;%s\n", fmtG(w.Altitude), fmtG(w.WindHeight), co2)
 	} else {
 		for i := 1; i < w.NumHeader; i++ {
 			b.WriteString(units + "\n")
